@@ -426,6 +426,10 @@ func c14Scenarios() []c14Scn {
 		{"sweep(xzW) then xzW(CRC32 blocks)|xzW(CRC32 blocks)", []c14Body{c14Seq(c14FaultSweepM("xzW", []bool{true}), c14XZWriter(xz.WriterConfig{DictCap: 4096, BlockSize: 40, CheckSum: xz.CRC32}, t[:130])), c14XZWriter(xz.WriterConfig{DictCap: 4096, BlockSize: 40, CheckSum: xz.CRC32}, t[20:140])}},
 		{"sweep(xzW) then xzW(CRC64 blocks)|xzW(CRC64 blocks)", []c14Body{c14Seq(c14FaultSweepM("xzW", []bool{true}), c14XZWriter(xz.WriterConfig{DictCap: 4096, BlockSize: 40}, t[:130])), c14XZWriter(xz.WriterConfig{DictCap: 4096, BlockSize: 40}, t[20:140])}},
 		{"sweep(xzW) then xzW(SHA-256 blocks)|xzR(SHA-256)", []c14Body{c14Seq(c14FaultSweepM("xzW", []bool{false}), c14XZWriter(xz.WriterConfig{DictCap: 4096, BlockSize: 40, CheckSum: xz.SHA256}, t[:130])), c14XZReader(stream2)}},
+		// LZMA2 writers driven through their error paths (sink failing once at every position, the
+		// failed call and Close repeated), then two LZMA2 writers side by side: whatever an instance
+		// hands back on its way out must not be handed to two later instances
+		{"sweep(lzma2W) then lzma2W(Flush)|lzma2W(Flush)", []c14Body{c14Seq(c14FaultSweepM("lzma2W", []bool{false}), c14LZMA2Writer(lzma.Writer2Config{DictCap: 4096}, t[:130])), c14LZMA2Writer(lzma.Writer2Config{DictCap: 4096}, t[30:150])}},
 		// two classic readers whose headers differ in every field (properties, dictionary size, size)
 		{"lzmaR|lzmaR different headers", []c14Body{c14LZMAReader(mustLibLZMA(LZCfg{DictCap: 4096}, t[:60])), c14LZMAReader(mustLibLZMA(LZCfg{Props: true, LC: 0, LP: 2, PB: 1, DictCap: 1 << 16, SizeInHeader: true, Size: 50}, t[30:80]))}},
 		{"lzmaW|lzmaW same props (bufio)", []c14Body{c14LZMAWriter(lzma.WriterConfig{DictCap: 4096}, t[:90], false), c14LZMAWriter(lzma.WriterConfig{DictCap: 4096}, t[10:100], false)}},
